@@ -36,6 +36,7 @@ CapsOf(p) == CASE p = "p1" -> {<<"f", "a">>}
                [] p = "bad2" -> {<<"g", "#nope">>}
                [] p = "bad3" -> {}
                [] p = "bad4" -> {}
+               [] p = "p17" -> {<<"g", "a">>}
                [] p = "p16" -> {<<"f", "a">>, <<"f", "b">>, <<"g", "a">>}
                [] p = "q2" -> {}
 AllCapPairs == UNION {CapsOf(p) : p \in Probes}
@@ -48,7 +49,9 @@ MInit == [cur |-> None, tok |-> [p \in Probes |-> None],
 \* p10's two selectors are one interned selector on f (pushed twice); p16's two selectors concern different functions
 Mult(p) == IF p = "p10" THEN 2 ELSE 1
 HMult(p) == IF p \in {"p10", "p16"} THEN 2 ELSE 1
-Push(m, p, d) == [m EXCEPT !.cnt = [fn \in Fns |-> IF fn \in Touches(p) THEN @[fn] + d * Mult(p) ELSE @[fn]],
+\* p17 names g at two levels: g is pushed twice (once without captures)
+CMult(p) == IF p \in {"p10", "p17"} THEN 2 ELSE 1
+Push(m, p, d) == [m EXCEPT !.cnt = [fn \in Fns |-> IF fn \in Touches(p) THEN @[fn] + d * CMult(p) ELSE @[fn]],
                            !.caps = [c \in AllCapPairs |-> IF c \in CapsOf(p) THEN @[c] + d * Mult(p) ELSE @[c]]]
 Plus(c, p) == (IF c = None THEN <<>> ELSE c) \o [i \in 1..HMult(p) |-> p]
 
